@@ -191,7 +191,19 @@ struct OwnedTx {
     to: SocketAddr,
 }
 fn own(tx: Transmit) -> OwnedTx {
-    OwnedTx { data: tx.data().to_vec(), transport: tx.transport, from: tx.from, to: tx.to }
+    // the transmission as handed out, and again after into_owned() / rebuilt with new_owned(): one value, three routes
+    let first = OwnedTx { data: tx.data().to_vec(), transport: tx.transport, from: tx.from, to: tx.to };
+    let again = Transmit::new_owned(tx.data().to_vec().into_boxed_slice(), tx.transport, tx.from, tx.to);
+    let o = tx.into_owned();
+    let same = |x: &Transmit| x.data() == first.data.as_slice() && x.transport == first.transport && x.from == first.from && x.to == first.to;
+    if same(&o) && same(&again) && &*o.data == first.data.as_slice() {
+        first
+    } else {
+        // reported as an altered transmission by transmit_json()
+        let mut data = first.data.clone();
+        data.extend_from_slice(b"<into_owned differs>");
+        OwnedTx { data, ..first }
+    }
 }
 
 struct Run<'u> {
@@ -397,6 +409,9 @@ impl<'u> Run<'u> {
                     let mcls = match cls {
                         "indication" => MessageClass::Indication,
                         "success" => MessageClass::Success,
+                        // send_data(): opaque application bytes - here they even look like a request (possibly one with the id
+                        // of an outstanding transaction), or like no STUN message at all
+                        "data" => MessageClass::Request,
                         _ => MessageClass::Error,
                     };
                     // a fresh id, or (for responses) possibly the id of an outstanding request
@@ -411,16 +426,37 @@ impl<'u> Run<'u> {
                     for at in &attrs {
                         b.add_attribute(at.as_ref()).unwrap();
                     }
-                    let bytes = b.clone().build();
+                    let mut bytes = b.clone().build();
                     let at = self.at(now_units);
-                    let r = catch_unwind(AssertUnwindSafe(|| self.agent.send(b, to, at).map(own)));
+                    let r = if cls == "data" {
+                        match (self.seed + self.resp_cls_toggle) % 4 {
+                            1 => bytes.insert(0, 0x17),          // not STUN at all
+                            2 => bytes.truncate(7),               // shorter than a header
+                            3 => bytes.clear(),                   // nothing
+                            _ => {}
+                        }
+                        self.resp_cls_toggle += 1;
+                        let data = bytes.clone();
+                        catch_unwind(AssertUnwindSafe(|| Ok(own(self.agent.send_data(&data, to)))))
+                    } else {
+                        catch_unwind(AssertUnwindSafe(|| self.agent.send(b, to, at).map(own)))
+                    };
                     match r {
                         Err(e) => json!({"k": "panic", "msg": panic_msg(e)}),
-                        Ok(Err(e)) => json!({"k": "err", "e": format!("{e:?}")}),
+                        Ok(Err(e)) => { let e: StunError = e; json!({"k": "err", "e": format!("{e:?}")}) }
                         Ok(Ok(tx)) => {
                             let exp = (pay.clone(), bytes);
                             let mut j = self.transmit_json(&tx, Some(-1), Some(&exp));
                             j.as_object_mut().unwrap().remove("tid");
+                            if cls == "data" {
+                                // what send_data() puts into its transmission is fixed by no listed property (an agent might
+                                // frame the bytes for a stream transport): recorded, never a verdict.  What the call does to
+                                // the agent's state is compared like for any other call.
+                                let exact = j["pay"] == json!(pay) && j["to"] == s["to"] && j["from"] == json!("local");
+                                let tr = if self.transport == TransportType::Udp { "udp" } else { "tcp" };
+                                let exact = exact && j["tr"] == json!(tr);
+                                j = json!({"k": "transmit", "pay": pay, "to": s["to"], "from": "local", "tr": tr, "data_exact": exact});
+                            }
                             j
                         }
                     }
